@@ -263,11 +263,24 @@ impl<T> RcInner<T> {
     pub(crate) fn is_not_destructed(&self) -> bool {
         vp!(IND_LOAD);
         let mut old = State::from_raw(self.state.load(Ordering::SeqCst));
-        while !old.destructed() && old.strong() == 0 {
+        while !old.destructed() {
+            let new = if old.strong() == 0 {
+                old.add_strong(1)
+            } else {
+                // A positive count does not protect the caller by itself: the remaining references
+                // may all be links of nodes that were unlinked before the caller's critical
+                // section began, and the recursive disposal releases those with the old stamp of
+                // the unlinked node. Stamp the current epoch, so that the disposal defers.
+                let epoch = global_epoch();
+                if old.epoch() == State::from_raw(0).with_epoch(epoch).epoch() {
+                    return true;
+                }
+                old.with_epoch(epoch)
+            };
             vp!(IND_CAS);
             match self.state.compare_exchange(
                 old.as_raw(),
-                old.add_strong(1).as_raw(),
+                new.as_raw(),
                 Ordering::SeqCst,
                 Ordering::SeqCst,
             ) {
@@ -275,7 +288,7 @@ impl<T> RcInner<T> {
                 Err(curr) => old = State::from_raw(curr),
             }
         }
-        !old.destructed()
+        false
     }
 }
 
